@@ -1161,3 +1161,13 @@ dtwin('c05-second-evolvent-same-box', 'C05', 'seeded/variants/C20-factory-builds
       why='the second evolvent is built from task.problem, the same box: the affine map (C05) is unaffected')
 dtwin('c07-second-evolvent-same-box', 'C07', 'seeded/variants/C20-factory-builds-second-evolvent.diff',
       why='the second evolvent is built from task.problem, the same box: the bounds binding (C07) is unaffected')
+fire('c07-cells-shift-raw-density', 'C07', EV, 'Evolvent.__init__', '        self.nexpValue = 0  # nexpExtended\n',
+     '        self.nexpValue = 0  # nexpExtended\n        self.cellCount = 1 << (self.numberOfFloatVariables * self.evolventDensity)\n', 'R07.6')
+twin('c07-cells-shift-int-normalised', 'C07', EV, 'Evolvent.__init__', '        self.nexpValue = 0  # nexpExtended\n',
+     '        self.nexpValue = 0  # nexpExtended\n        self.cellCount = 1 << int(self.numberOfFloatVariables * self.evolventDensity)\n')
+twin('c07-nodes-shift-dimension-only', 'C07', EV, 'Evolvent.__init__', '        self.nexpValue = 0  # nexpExtended\n',
+     '        self.nexpValue = 0  # nexpExtended\n        self.nodeMask = (1 << self.numberOfFloatVariables) - 1\n')
+dtwin('c12-seterr-restored-in-finally', 'C12', 'seeded/twins/seterr-restored-in-finally.diff',
+      why='process-wide numpy error mode changed and restored on every exit (try/finally)')
+dtwin('c12-errstate-context-manager', 'C12', 'seeded/twins/errstate-context-manager.diff',
+      why='np.errstate context manager: no process-wide state survives the block')
